@@ -224,6 +224,39 @@ def run_check(tier, seed):
                     break
             if nfail >= 3:
                 break
+        # ---- stream C: metadata-heavy programs (rename / delete / copy of attributes, renames of variables and dimensions in both
+        #      modes, redefinitions, cancel, second session ending in close or abort) under random configurations, with a
+        #      DIFFERENT configuration for the session that re-opens the file (hash-table sizes, header chunk, alignment, ...):
+        #      every by-name inquiry and all data must equal the configuration-free specification
+        nC = 40 if tier == 'thorough' else 8
+        for k in range(nC if nfail < 3 else 0):
+            hints, env, _ = rand_config(rng)
+            oh, _, _ = rand_config(rng)
+            small = ';'.join('%s=%d' % (kk, rng.choice([1, 1, 2, 3])) for kk in ('nc_hash_size_dim', 'nc_hash_size_var', 'nc_hash_size_gattr', 'nc_hash_size_vattr') if rng.chance(1, 2))
+            if small and 'PNETCDF_HINTS' not in env:
+                hints = small if hints == '-' else ';'.join([h for h in hints.split(';') if not h.startswith('nc_hash_size')] + [small])
+            nprocs = rng.choice([1, 1, 2, 3])
+            p = apigen.gen_meta_program(rng, 'c10c_%d.nc' % k, nprocs, hints=hints, ohints=oh)
+            text = p.text()
+            sp = _write(wd, 'c.txt', text)
+            rc, impl, err = apicmp.run_impl(exe, sp, nprocs, wd, env=env)
+            src, spec, serr = apicmp.run_spec(sp, nprocs)
+            evals += len(impl)
+            for kv in (hints.split(';') if hints != '-' else []) + ['reopen:' + x for x in (oh.split(';') if oh != '-' else [])] + list(env.keys()) + ['meta-np%d' % nprocs]:
+                kk = kv.split('=')[0]
+                cfg_hist[kk] = cfg_hist.get(kk, 0) + 1
+            desc = dict(hints=hints, reopen_hints=oh, env=env, nprocs=nprocs)
+            distinct.add(json.dumps(desc, sort_keys=True) + 'meta%d' % k)
+            mism = apicmp.compare(spec, impl)
+            if rc != 0 or mism:
+                rc2, impl2, _ = apicmp.run_impl(exe, sp, nprocs, wd, env=env)
+                if rc2 == 0 and not apicmp.compare(spec, impl2):
+                    tie_diffs.append(('flaky', 'meta program', desc))
+                elif V.failing_input('C10:config-changes-result', 'metadata program under a configuration differs from the configuration-free specification: rc=%s %s' % (rc, [(a[1], a[2]) for a in mism[:3]]),
+                                     dict(script=text, config=desc, stderr=err[-300:]), tag='c%d' % nfail):
+                    nfail += 1
+                if nfail >= 3:
+                    break
         V.cov['evaluations'] = evals
         V.cov['distinct_nontrivial'] = len(distinct)
         V.cov['traces_validated_against_impl'] = nA + nB * ncfg
